@@ -7,7 +7,7 @@ Unless otherwise specified, all quotes in this file come from the RP66 v1 standa
 from typing import Any
 
 from dliswriter.utils.internal.converters import get_ascii_bytes
-from dliswriter.utils.internal.struct_writer import write_struct_ascii
+from dliswriter.utils.internal.struct_writer import write_struct_ident
 from dliswriter.utils.internal.internal_enums import RepresentationCode, EFLRType
 from dliswriter.logical_record.core.eflr import EFLRSet, EFLRItem
 from dliswriter.utils.internal.value_checkers import validate_string
@@ -109,11 +109,11 @@ class FileHeaderSet(EFLRSet):
         bts = b''
 
         bts += pack_ushort(int('00110100', 2))
-        bts += write_struct_ascii('SEQUENCE-NUMBER')
+        bts += write_struct_ident('SEQUENCE-NUMBER')
         bts += pack_ushort(20)
 
         bts += pack_ushort(int('00110100', 2))
-        bts += write_struct_ascii('ID')
+        bts += write_struct_ident('ID')
         bts += pack_ushort(20)
 
         return bts
